@@ -3,6 +3,7 @@ CONSTANTS
   CfgChoices <- CfgsM
   CtrlChoices <- CtrlsM
   MethodChoices <- MethodsM
+  TypeChoices <- NoTypes
   MaxCtrls = 2
   MaxMethods = 1
   SortBeforeReduce = TRUE
